@@ -100,8 +100,48 @@ def run(ctx):
                            f'{"has no valid polygon" if mp is None else "is a valid cell"} and the lowest cell meeting the point is {want}',
                            {'dataset': d.spec['label'], 'point': [c.x, c.y], 'cell': n})
                 break
+    # two meshes alive at the same time with the same outline, the same number of cells and different interior nodes:
+    # each is looked up on its own cells (nothing keyed on size / extent may be shared between them)
+    for rep in range(2 if quick else 6):
+        w, h = rng.choice([(3, 3), (4, 3), (3, 4)])
+        nodes1, faces1 = gen.lattice_mesh(rng, w, h, jitter=True, variety=False, drop=False)
+        xs1 = [x for x, y in nodes1]
+        ys1 = [y for x, y in nodes1]
+        nodes2 = [(x, y) if x in (min(xs1), max(xs1)) or y in (min(ys1), max(ys1)) else (x + rng.choice([-2, 1, 2]), y + rng.choice([-2, -1, 2]))
+                  for x, y in nodes1]
+        twins = [gen.ugrid(rng, mesh=(nds, faces1), invalid=False, supplied=set(), face_coords=False, start_index=0, fill='nan',
+                           transposed=False) for nds in (nodes1, nodes2)]
+        tp = []
+        for t in twins:
+            with warnings.catch_warnings():
+                warnings.simplefilter('ignore')
+                tp.append([None if p is None else shapely.Polygon(p) for p in pm.impl_polygons(t.ds.ems)])
+        for which, (t, shp_t) in enumerate(zip(twins, tp)):
+            probe = [p.representative_point() for p in shp_t if p is not None] + [Point(x / 8.0, y / 8.0) for x, y in (nodes1, nodes2)[which]]
+            for c in probe:
+                with warnings.catch_warnings():
+                    warnings.simplefilter('ignore')
+                    r = attempt(t.ds.ems.get_index_for_point, c)
+                got = None if r[0] != 'ok' or r[1] is None else int(r[1].linear_index)
+                brute = [n for n, p in enumerate(shp_t) if p is not None and p.intersects(c)]
+                ctx.case(('twin', rep, which, c.x, c.y), True)
+                ctx.count('twin_meshes:lookup')
+                if got != (brute[0] if brute else None):
+                    ctx.report('property', f'cell {got} returned for point {(c.x, c.y)} of the {"second" if which else "first"} of two meshes '
+                               f'with the same outline and size; in that mesh the lowest cell meeting the point is {brute[0] if brute else None}',
+                               {'dataset': t.spec['label'], 'point': [c.x, c.y], 'twin': which})
+                    break
     exprs, plans = [], []
     for d in datasets:
+        # a variable holding each cell's own linear index: what select_point returns says which cell was selected
+        fd = list(d.spec['kinds']['face'])
+        fshape = [d.ds.sizes[x] for x in fd]
+        size = 1
+        for x in fshape:
+            size *= x
+        import numpy as _np
+        import xarray as _xr
+        d.ds['cell_tag'] = _xr.DataArray(_np.arange(size, dtype='i8').reshape(fshape), dims=fd)
         ems = d.ds.ems
         polys = pm.impl_polygons(ems)
         pts = candidate_points(rng, polys, n_pts)
@@ -153,6 +193,20 @@ def run(ctx):
                             bad = f'native index {item.index} does not ravel to linear index {lin}'
                         elif polys[lin] is None or not item.polygon.equals(shp[lin]):
                             bad = f'returned polygon is not polygon {lin}'
+                # select_point: the data of that same cell, or a refusal when no cell is there
+                if not bad and pass_no == 0 and k % 3 == 0:
+                    with warnings.catch_warnings():
+                        warnings.simplefilter('ignore')
+                        sp = attempt(ems.select_point, pt)
+                    ctx.count('select_point')
+                    if brute:
+                        if sp[0] != 'ok':
+                            bad = f'select_point failed ({sp[1]}) although cell {brute[0]} is there'
+                        elif 'cell_tag' not in sp[1] or int(sp[1]['cell_tag'].values) != brute[0]:
+                            bad = (f'select_point returned the data of cell '
+                                   f'{int(sp[1]["cell_tag"].values) if "cell_tag" in sp[1] else "?"}, the lowest intersecting cell is {brute[0]}')
+                    elif sp[0] == 'ok':
+                        bad = 'select_point returned data for a point no cell meets'
                 if bad:
                     ctx.report('property', bad, case)
                 elif impl != m_first or sorted(brute) != m_hits:
